@@ -511,6 +511,18 @@ func checkC18(e *env) {
 		if sr.panicMsg != "" || sr.hang || chains == nil {
 			return
 		}
+		if ls := c.levels(); len(ls) > 1 {
+			e.res.Dist["c18:several-levels-requested"]++
+			for _, a := range ls {
+				for _, b := range ls {
+					if _, okA := sr.levels[a]; okA && a < b {
+						if _, okB := sr.levels[b]; !okB {
+							e.res.Dist["c18:collapses-on-a-deeper-level-but-not-on-a-shallower-one"]++
+						}
+					}
+				}
+			}
+		}
 		for _, l := range c.levels() {
 			mv := maxVisits(chains[l])
 			e.res.Dist[fmt.Sprintf("c18:max-visits=%d", min(mv, 4))]++
